@@ -2,6 +2,7 @@ import Driver.Util
 import LettreVerif.Model.XText
 import LettreVerif.Spec.XTextSpec
 import LettreVerif.Spec.Dialogue
+import LettreVerif.Model.Base64
 namespace LV.Driver.C04
 open LV LV.Driver
 
@@ -52,6 +53,64 @@ def mailstdOp : List String → String
   | _ => "BADLINE"
 
 def isInfix (a b : Bytes) : Bool := (List.range (b.length + 1 - a.length)).any fun i => (b.drop i).take a.length == a
+
+/-- RFC 3986 percent-decoding of one URL component (a `+` stands for itself); `none` when an escape is malformed -/
+def pctDecode : Bytes → Option Bytes
+  | [] => some []
+  | 37 :: h :: l :: rest =>
+    let hv (b : Byte) : Option Nat :=
+      let n := b.toNat
+      if 48 ≤ n ∧ n ≤ 57 then some (n - 48) else if 65 ≤ n ∧ n ≤ 70 then some (n - 55) else if 97 ≤ n ∧ n ≤ 102 then some (n - 87) else none
+    match hv h, hv l, pctDecode rest with
+    | some x, some y, some r => some (UInt8.ofNat (x * 16 + y) :: r)
+    | _, _, _ => none
+  | b :: rest => if b == 37 then none else (pctDecode rest).map (b :: ·)
+
+/-- is the octet string well-formed UTF-8? (what `decode_utf8` demands) -/
+def utf8Ok : Bytes → Bool
+  | [] => true
+  | b :: r =>
+    let n := b.toNat
+    let cont (x : Byte) : Bool := x.toNat / 64 == 2
+    if n < 128 then utf8Ok r
+    else match r with
+      | c1 :: r1 =>
+        if 0xC2 ≤ n && n ≤ 0xDF then cont c1 && utf8Ok r1
+        else match r1 with
+          | c2 :: r2 =>
+            if 0xE0 ≤ n && n ≤ 0xEF then
+              cont c1 && cont c2 && !(n == 0xE0 && c1.toNat < 0xA0) && !(n == 0xED && c1.toNat ≥ 0xA0) && utf8Ok r2
+            else match r2 with
+              | c3 :: r3 =>
+                if 0xF0 ≤ n && n ≤ 0xF4 then
+                  cont c1 && cont c2 && cont c3 && !(n == 0xF0 && c1.toNat < 0x90) && !(n == 0xF4 && c1.toNat ≥ 0x90) && utf8Ok r3
+                else false
+              | [] => false
+          | [] => false
+      | [] => false
+
+/-- `urlauth <client> <user in the URL> <password in the URL> | sent|senderr|urlerr <AUTH unit>`: the credentials a
+    transport built by `from_url` presents are the percent-decoded components of the URL, octet for octet (C14) -/
+def urlauthOp : List String → String
+  | [_client, userH, passH, res, auth] =>
+    if res == "PANIC" then propfail "panic" else
+    match ofHex userH, ofHex passH with
+    | some u, some p =>
+      match pctDecode u, pctDecode p with
+      | some du, some dp =>
+        if !(utf8Ok du && utf8Ok dp) then (if res == "urlerr" then "ok refused" else propfail "URL-with-non-UTF-8-credentials-accepted") else
+        if res != "sent" then propfail s!"URL-credentials-not-usable:{res}" else
+        match ofHex auth with
+        | some a =>
+          let pre := str "AUTH PLAIN "
+          if !(pre.isPrefixOf a) || a.drop (a.length - 2) != CRLF then propfail "no-AUTH-PLAIN-command" else
+          match Base64.dec ((a.drop pre.length).take (a.length - pre.length - 2)) with
+          | some d => if d == [0] ++ du ++ [0] ++ dp then "ok" else propfail "credentials-sent-are-not-the-URL's-credentials"
+          | none => propfail "AUTH-argument-is-not-base64"
+        | none => propfail "no-AUTH-command-sent"
+      | _, _ => if res == "urlerr" then "ok refused" else "ok malformed-escape"
+    | _, _ => "BADLINE"
+  | l => if l.contains "PANIC" then propfail "panic" else "BADLINE"
 
 /-- `urlcred <url> <secrets> | sync async`: whatever `from_url` answers, neither its error text nor the Debug text of the
     builder contains a spelling (as written in the URL, or percent-decoded) of the user name's or password's secret
